@@ -465,12 +465,20 @@ func declared(c cdc, b []byte) (hdr, total int, ok bool) {
 			return 0, 0, false
 		}
 		f := make([]byte, 8)
+		var raw int64
 		if c.BE {
 			copy(f[8-c.W:], b[c.Off:e])
-			return e, int(int64(binary.BigEndian.Uint64(f))) + c.Adj + e, true
+			raw = int64(binary.BigEndian.Uint64(f))
+		} else {
+			copy(f, b[c.Off:e])
+			raw = int64(binary.LittleEndian.Uint64(f))
 		}
-		copy(f, b[c.Off:e])
-		return e, int(int64(binary.LittleEndian.Uint64(f))) + c.Adj + e, true
+		if raw < 0 {
+			// an 8-byte field of 2^63 or more announces no frame at all: nothing may be delivered here,
+			// whatever the adjustment does to the number
+			return e, 0, false
+		}
+		return e, int(raw) + c.Adj + e, true
 	}
 	return 0, 0, false
 }
